@@ -142,10 +142,12 @@ PROPS = {
         "quick": [
             {"test": "TestC05Concurrent", "checks": 900, "shards": 3, "race": True, "gomaxprocs": [2, 4, 16]},
             {"test": "TestC05RaceOnly", "checks": 400, "shards": 2, "race": True, "gomaxprocs": [4, 16]},
+            {"test": "TestC05ColdSet", "checks": 600, "shards": 2, "race": True, "gomaxprocs": [4, 16]},
         ],
         "thorough": [
             {"test": "TestC05Concurrent", "checks": 48000, "shards": 12, "race": True, "gomaxprocs": [2, 4, 16, 8]},
             {"test": "TestC05RaceOnly", "checks": 16000, "shards": 4, "race": True, "gomaxprocs": [4, 16]},
+            {"test": "TestC05ColdSet", "checks": 16000, "shards": 4, "race": True, "gomaxprocs": [4, 16, 2, 8]},
         ],
         "assumptions": [
             "schedules are sampled (goroutine counts 2-8, GOMAXPROCS 2/4/8/16), not enumerated; the race detector only sees pairs of accesses that were executed",
@@ -233,6 +235,7 @@ PROPS = {
     },
     "C13": {
         "journal": True,
+        "hang_is_violation": True,
         "confirm_tries": 2,
         "quick": [
             {"test": "TestC13Bind", "checks": 20000, "shards": 4},
@@ -317,6 +320,7 @@ PROPS = {
     },
     "C01": {
         "journal": True,
+        "hang_is_violation": True,
         "reduce_died": True,
         "confirm_tries": 2,
         "quick": [
